@@ -76,7 +76,10 @@ func (p *SliceLossIndication) Unmarshal(rawPacket []byte) error {
 		return errPacketTooShort
 	}
 
-	if h.Type != TypeTransportSpecificFeedback || h.Count != FormatSLI {
+	// RFC 4585 registers SLI as a payload-specific feedback message (PT 206).
+	// Packets marshaled by earlier versions of this package carry PT 205 and
+	// are still accepted.
+	if (h.Type != TypePayloadSpecificFeedback && h.Type != TypeTransportSpecificFeedback) || h.Count != FormatSLI {
 		return errWrongType
 	}
 
@@ -106,7 +109,7 @@ func (p *SliceLossIndication) MarshalSize() int {
 func (p *SliceLossIndication) Header() Header {
 	return Header{
 		Count:  FormatSLI,
-		Type:   TypeTransportSpecificFeedback,
+		Type:   TypePayloadSpecificFeedback,
 		Length: uint16((p.MarshalSize() / 4) - 1),
 	}
 }
